@@ -560,6 +560,18 @@ func firstMatchRules(c *core.Ctx) {
 				c.Fail("first-match", cname, lastPos(p), "an element is accepted on assignability or on its printed name alone, not on type identity (String()-equality and AssignableTo together, or ==): a merely assignable earlier field would be returned")
 				continue
 			}
+			// a lookup that reports presence next to the entry (ForNameMaybe): true exactly on a match
+			if p.Exit == ir.ExitReturn && p.From != nil && len(p.Results) == 2 {
+				flag := p.Results[1]
+				want := "false"
+				if match > 0 {
+					want = "true"
+				}
+				if !(flag.IsConst() && flag.Aux == want) {
+					ok = false
+					c.Fail("first-match", cname, lastPos(p), "the lookup reports %s next to its answer, expected %s on this path (a match was%s found)", short(flag), want, map[bool]string{true: "", false: " not"}[match > 0])
+				}
+			}
 			switch {
 			case p.Exit == ir.ExitReturn && p.From != nil && match > 0:
 				nFound++
